@@ -11,7 +11,7 @@ CONSTANTS
   Pipe = {p1, p2}
   Thread = {t1, t2}
   Timed = FALSE
-  MaxSurvey = 3
+  MaxSurvey = 2
   InitOpt <- Opt2
   InitSQ = 1
   RespSet <- MC_Resps
